@@ -344,7 +344,11 @@ class Facts:
         with open(path) as fh:
             for l in fh:
                 d = json.loads(l)
-                if 'fn' in d: self.bodies[d['fn']] = Body(d)
+                if 'fn' in d:
+                    nm = d['fn']; k = 1
+                    while nm in self.bodies:
+                        k += 1; nm = '%s#%d' % (d['fn'], k)
+                    d['fn'] = nm; self.bodies[nm] = Body(d)
                 elif 'adt' in d: self.adts[d['adt']] = d
                 elif 'impl' in d: self.impls.append(d)
                 elif 'const' in d: self.consts[d['const']] = (d['ty'], d['val'])
